@@ -387,3 +387,66 @@ func refUndoTodo(u *Universe, x, y string) (undo, todo []string) {
 	}
 	return
 }
+
+// LedgerObserve returns the answers of the public ledger queries for every
+// block and transaction of the universe (plus extra block ids), as a map
+// suitable for differential comparison (no reference model involved).
+func LedgerObserve(l *ledger.Ledger, u *Universe, extra map[string][]byte, nameOf func([]byte) string) map[string]string {
+	o := map[string]string{}
+	meta := l.GetMeta()
+	o["meta"] = fmt.Sprintf("root=%s tip=%s h=%d", nameOf(meta.RootBlockid), nameOf(meta.TipBlockid), meta.TrunkHeight)
+	ids := map[string][]byte{}
+	for _, n := range u.BOrder {
+		ids[n] = u.ID(n)
+	}
+	for n, id := range extra {
+		ids[n] = id
+	}
+	maxH := int64(0)
+	for n, id := range ids {
+		ex := l.ExistBlock(id)
+		s := fmt.Sprintf("exist=%v", ex)
+		if hdr, err := l.QueryBlockHeader(id); err == nil {
+			s += fmt.Sprintf(" hdr[h=%d trunk=%v next=%s pre=%s]", hdr.Height, hdr.InTrunk, nameOf(hdr.NextHash), nameOf(hdr.PreHash))
+			if hdr.Height > maxH {
+				maxH = hdr.Height
+			}
+		} else {
+			s += " hdr[err]"
+		}
+		if b, err := l.QueryBlock(id); err == nil {
+			s += fmt.Sprintf(" blk[h=%d trunk=%v next=%s ntx=%d]", b.Height, b.InTrunk, nameOf(b.NextHash), len(b.Transactions))
+		} else {
+			s += " blk[err]"
+		}
+		o["block:"+n] = s
+	}
+	for h := int64(0); h <= maxH+1; h++ {
+		if b, err := l.QueryBlockByHeight(h); err == nil {
+			o[fmt.Sprintf("height:%d", h)] = nameOf(b.Blockid)
+		} else {
+			o[fmt.Sprintf("height:%d", h)] = "-"
+		}
+	}
+	for _, tn := range u.TOrder {
+		t := u.Tx(tn)
+		s := fmt.Sprintf("intrunk=%v", l.IsTxInTrunk(t.Txid))
+		if qt, err := l.QueryTransaction(t.Txid); err == nil {
+			s += " blk=" + nameOf(qt.Blockid)
+		} else {
+			s += " absent"
+		}
+		o["ltx:"+tn] = s
+	}
+	if tips, err := l.GetBranchInfo([]byte{}, -1); err == nil {
+		var got []string
+		for _, t := range tips {
+			got = append(got, nameOf([]byte(t)))
+		}
+		sort.Strings(got)
+		o["branches"] = strings.Join(got, ",")
+	} else {
+		o["branches"] = "ERR"
+	}
+	return o
+}
